@@ -28,13 +28,17 @@ def solve(mk, st, method, nt, opts, d, m, B, ts, dt, degy=2, adjoint=False, adjo
 
 
 def scenario(task):
-    st, method, nt, opts, d, m, B, ts, dt, degy = task
+    st, method, nt, opts, d, m, B, ts, dt, degy = task[:10]
+    y0_grad = task[10] if len(task) > 10 else True
     mk = sdes.Maker(symbolic=True, seed=11)
-    sde, bm, y0, ys = solve(mk, st, method, nt, opts, d, m, B, ts, dt, degy=degy)
+    sde, bm, y0, ys = solve(mk, st, method, nt, opts, d, m, B, ts, dt, degy=degy, y0_grad=y0_grad)
     validate(ys, mk.env, 1e-8)
     loss = e1.weighted_loss(mk, ys)
     params = list(sde.parameters())
-    grads = torch.autograd.grad(loss, [y0] + params, allow_unused=True)
+    if y0_grad:
+        grads = torch.autograd.grad(loss, [y0] + params, allow_unused=True)
+    else:       # the usual training set-up: a plain initial state, gradients wrt the parameters only
+        grads = (None,) + tuple(torch.autograd.grad(loss, params, allow_unused=True))
     Zc = e1.Z()
     res = []
     lnode = loss.sym.reshape(-1)[0]
@@ -42,7 +46,9 @@ def scenario(task):
     n_id = 0
     for tname, tensor, g in zip(['y0'] + [f'param{i}' for i in range(len(params))], [y0] + params, grads):
         if g is None:
-            res.append((tname, 'none-gradient', {})); continue
+            if tname != 'y0' or y0_grad:
+                res.append((tname, 'none-gradient', {}))
+            continue
         validate(g, mk.env, 1e-7)
         for k, (vn, gn) in enumerate(zip(tensor.sym.reshape(-1), g.sym.reshape(-1))):
             want = dag.diff(lnode, vn.args[0], dmemo if False else None)
@@ -51,7 +57,9 @@ def scenario(task):
             if r != 'unsat':
                 res.append((f'{tname}[{k}]', r, model))
     # twin: gradient claimed equal to derivative + 1
-    r, _ = Zc.equal(grads[0].sym.reshape(-1)[0], dag.diff(lnode, y0.sym.reshape(-1)[0].args[0]) + dag.ONE)
+    gi = 0 if y0_grad else 1
+    tw_t = ([y0] + params)[gi]
+    r, _ = Zc.equal(grads[gi].sym.reshape(-1)[0], dag.diff(lnode, tw_t.sym.reshape(-1)[0].args[0]) + dag.ONE)
     return dict(task=task, bad=res, identities=n_id, solver_s=Zc.solver_s, queries=Zc.queries, twin=(r == 'sat'))
 
 
@@ -62,6 +70,8 @@ def tasks_for(tier):
         light = method in ('euler', 'milstein') and not opts.get('grad_free')
         ts, dt = two if light else one
         T.append((st, method, nt, opts, 1, 2, 1, ts, dt, 1 if (method == 'srk' and nt != 'additive') else 2))
+        # plain y0 (no grad): parameter gradients only; the first step then runs on a state outside the autograd graph
+        T.append((st, method, nt, opts, 1, 2, 1, [0.0, 0.1], 0.1, 1 if (method == 'srk' and nt != 'additive') else 2, False))
     if tier != 'quick':
         for st, method, nt, opts in e1.all_forward_configs():
             T.append((st, method, nt, opts, 1, 2, 1, two[0], two[1], 1))      # two steps, affine f,g
@@ -81,7 +91,7 @@ def run(ctx):
     tasks = tasks_for(ctx.tier)
     tw = 0
     for t, (st_, res) in zip(tasks, pmap(scenario, tasks)):
-        name = f"{t[0]},{t[1]},{t[2]},{t[3] or ''} d={t[4]} B={t[6]}"
+        name = f"{t[0]},{t[1]},{t[2]},{t[3] or ''} d={t[4]} B={t[6]} steps={len(t[7]) - 1}" + (' y0-plain' if len(t) > 10 and not t[10] else '')
         if st_ != 'ok':
             ctx.inconc(name, str(res)[:600]); continue
         ctx.paths += 1; ctx.queries += res['queries']; ctx.solver_s += res['solver_s']; ctx.validated += 1
@@ -102,19 +112,23 @@ def replay(data):
     """plain float64 tensors: autograd gradient vs central finite differences of the real sdeint at the model point"""
     import torchsde
     r = data['replay']
-    st, method, nt, opts, d, m, B, ts, dt, degy = r['task']
+    st, method, nt, opts, d, m, B, ts, dt, degy = r['task'][:10]
+    y0_grad = r['task'][10] if len(r['task']) > 10 else True
     env = r.get('model') or {}
 
     def run_once(shift=None):
         mk = sdes.Maker(symbolic=False, env=dict(env), seed=11)
         if shift:
             mk.env.update(shift)
-        sde, bm, y0, ys = solve(mk, st, method, nt, opts, d, m, B, ts, dt, degy=degy)
+        sde, bm, y0, ys = solve(mk, st, method, nt, opts, d, m, B, ts, dt, degy=degy, y0_grad=y0_grad)
         w = mk('lw', tuple(ys.shape), values=0.5 + 0.1 * np.arange(ys.numel()).reshape(tuple(ys.shape)))
         return mk, sde, y0, (ys * w).sum()
     mk, sde, y0, loss = run_once()
     params = list(sde.parameters())
-    grads = torch.autograd.grad(loss, [y0] + params, allow_unused=True)
+    if y0_grad:
+        grads = torch.autograd.grad(loss, [y0] + params, allow_unused=True)
+    else:
+        grads = (None,) + tuple(torch.autograd.grad(loss, params, allow_unused=True))
     names = []
     for tname, tensor in zip(['y0', 'a', 'b'], [y0] + params):
         names += list(mk.names_for(tname, tuple(tensor.shape)).reshape(-1))
@@ -122,6 +136,8 @@ def replay(data):
     worst = 0.0
     eps = 1e-6
     for nme, g in zip(names, gflat):
+        if not y0_grad and nme.startswith('y0'):
+            continue
         base = mk.env[nme]
         lp = float(run_once({nme: base + eps})[3]); lm = float(run_once({nme: base - eps})[3])
         fd = (lp - lm) / (2 * eps)
